@@ -805,6 +805,13 @@ def _tot_lines():
     for tok, n in (('-', 200), ('(', 120), ('%', 200), ('+', 200), ('sqrt ', 90), ('1^', 120), ('m ', 200), ('1|', 150), ('- -', 150)):
         add(tok * n + '1')
     add('(' * 100 + '1' + ')' * 100)
+    # fields at the edge of their integer types (inputs of repaired defects and their neighbours)
+    for x in ('#2020-01-01 00:00:00.1234567890#', '#2020-01-01 00:00:00.12345678901234567890#', '#2020-01-01 00:00:00 +9999999:00#',
+              '#2020-01-01 00:00:00 -2147483647:59#', '#2020-01-01 00:00:00 +596523:59#', '#2020-01-01 00:00:00 +9999#', '#jan 1, -2147483647 bc#',
+              '#jan 1, 2147483647 bc#', '#jan 1, -2147483648 ad#', 
+              '1 -> digits 2147483647', '22/7 -> digits 2147483646', '#2147483647-01-01#', '#0000-00-00#', '#99999-99-99 99:99:99#',
+              '1 -> 1/(0+1)', '1 m -> m/(0+2)', '1 -> (0+1)^-1', '12 -> 6 xor 6', '10 foot -> 3 foot - 3 foot', '1 foot -> 7 foot mod 7 foot', '8 m^2 -> (4 m^4)^0.5'):
+        add(x)
     return out
 
 
